@@ -6,9 +6,19 @@ use wayfind::Router;
 
 pub struct Out {
     pub lines: Vec<String>,
+    /// deterministic enumerations are partitioned: this process writes the units with index % nchunks == chunk
+    pub chunk: usize,
+    pub nchunks: usize,
+    pub counter: usize,
 }
 
 impl Out {
+    /// is the next unit of a deterministic enumeration ours?
+    fn mine(&mut self) -> bool {
+        let m = self.counter % self.nchunks == self.chunk;
+        self.counter += 1;
+        m
+    }
     fn op(&mut self, s: String) {
         self.lines.push(s);
     }
@@ -373,6 +383,9 @@ pub fn scope(nshapes: usize, k: usize, max_len: usize, alpha_n: usize, out: &mut
         }
     }
     for set in sets {
+        if !out.mine() {
+            continue;
+        }
         out.reset();
         out.new_router(0, KEYS);
         for (n, i) in set.iter().enumerate() {
@@ -392,6 +405,9 @@ pub fn parse_stream(n: usize, max_len: usize, api_every: usize, out: &mut Out) {
     out.reset();
     out.new_router(0, KEYS);
     for (i, s) in strings.iter().enumerate() {
+        if !out.mine() {
+            continue;
+        }
         out.op(format!("parse {}", hex(s.as_bytes())));
         if api_every > 0 && i % api_every == 0 {
             // through the public API as well: insert, print, search the template text itself, delete
